@@ -55,6 +55,7 @@ def run(ctx) -> None:
   ctx.rule('R4', 'children emitted only under an emitted parent with a matching value; cast by external type', 3)
   ctx.rule('R5', 'indexed parameters grouped by the parser and sorted by integer index; parser and builder agree', 3)
   ctx.rule('R6', 'clients.Trial.parameters uses StudyConfig.trial_parameters', 1)
+  ctx.import_rules('C09', {'R8', 'R5'}, 'R7', 'the study config the client casts with is the one that was stored: conditional children survive the wire one by one')
   trial_mod = ctx.index.need_module('vizier._src.pyvizier.shared.trial')
   pcm = ctx.index.need_module('vizier._src.pyvizier.shared.parameter_config')
   pv = trial_mod.classes.get('ParameterValue')
@@ -90,7 +91,27 @@ def run(ctx) -> None:
   g = cfgmod.CFG(ad.node)
   default_float = any(n.kind == 'stmt' and isinstance(n.ast, ast.Assign) and unparse(n.ast, 0) == 'external_type = ExternalType.FLOAT' for n in g.nodes)
   int_assign = [n for n in g.nodes if n.kind == 'stmt' and isinstance(n.ast, ast.Assign) and unparse(n.ast, 0) == 'external_type = ExternalType.INTEGER']
-  guard = [n for n in g.nodes if n.kind == 'test' and 'round(v)' in unparse(n.ast, 0) and unparse(n.ast, 0).startswith('all(')]
+  def _exact_integral_test(t: ast.AST) -> bool:
+    # all(<v == round(v) | v == int(v) | float(v).is_integer()> for v in feasible_values)
+    if not (isinstance(t, ast.Call) and dotted(t.func) == 'all' and len(t.args) == 1
+            and isinstance(t.args[0], (ast.ListComp, ast.GeneratorExp)) and len(t.args[0].generators) == 1):
+      return False
+    comp = t.args[0]
+    gen = comp.generators[0]
+    if not (isinstance(gen.target, ast.Name) and 'feasible_values' in unparse(gen.iter, 0) and not gen.ifs):
+      return False
+    v = gen.target.id
+    e = comp.elt
+    if isinstance(e, ast.Compare) and len(e.ops) == 1 and isinstance(e.ops[0], ast.Eq):
+      sides = [e.left, e.comparators[0]]
+      plain = [x for x in sides if isinstance(x, ast.Name) and x.id == v]
+      rounded = [x for x in sides if isinstance(x, ast.Call) and dotted(x.func) in ('round', 'int', 'math.floor', 'math.trunc', 'np.round', 'np.rint')
+                 and len(x.args) == 1 and isinstance(x.args[0], ast.Name) and x.args[0].id == v]
+      return len(plain) == 1 and len(rounded) == 1
+    if isinstance(e, ast.Call) and isinstance(e.func, ast.Attribute) and e.func.attr == 'is_integer':
+      return v in flow.names_in(e.func.value)
+    return False
+  guard = [n for n in g.nodes if n.kind == 'test' and _exact_integral_test(n.ast)]
   okd = default_float and bool(int_assign) and bool(guard) and guard[0].id in g.dominators()[int_assign[0].id] and \
       int_assign[0] in g.reachable([m for m, lab in guard[0].succs if lab == 'T'], include_starts=True) and \
       int_assign[0] not in g.reachable([m for m, lab in guard[0].succs if lab == 'F'], include_starts=True)
